@@ -204,7 +204,18 @@ func scOpenSteps(pc *proto.Case, r *scRender) {
 	}
 	// a seeded third of the other programs are touched after opening: a comment line is appended to one file and not
 	// saved. Nothing moves and nothing changes meaning, so every answer must be what it would be without the edit.
-	if hv := hash64(strings.Join(r.Text, "\x00"), scSeed+9); scUnsaved && hv%3 == 0 {
+	// (not the workspaces whose files add members to each other's tables: while one of them has unsaved edits the
+	// members declared across files come apart in the unchanged server already -- observed, see DESIGN.md 11.3 --
+	// so the relations have no settled answer there)
+	crossMembers := false
+	if len(r.Files) > 1 {
+		for _, o := range r.Occ {
+			if o.Role == "mdef" || o.Role == "muse" {
+				crossMembers = true
+			}
+		}
+	}
+	if hv := hash64(strings.Join(r.Text, "\x00"), scSeed+9); scUnsaved && !crossMembers && hv%3 == 0 {
 		i := int(hv>>8) % len(r.Files)
 		t := r.Text[i]
 		nl := strings.Count(t, "\n")
